@@ -362,6 +362,9 @@ class Session:
             return [np.ones((2,) + t + (1,), dtype=self.cfg.numtype), 7, np.float64(7), np.array(7),
                     np.ones((t[0],), dtype=self.cfg.numtype)][self.n % 5]
         if kind == 'conv':
+            self.nconv = getattr(self, 'nconv', self.cfg.rowbytes) + 1
+            if self.cfg.dtype.kind in 'iu' and self.nconv % 2 == 0:
+                return None            # None cannot become an integer (it would become NaN in a float array)
             return [['not a number'] * 1] if t == () else 'abc'
         raise ValueError(kind)
 
@@ -593,6 +596,7 @@ class Session:
                       and all((k in md) for k in dd) and ('#nokey' not in md)
                       and all(canon(md[k]) == canon(dd[k]) for k in dd)
                       and all(canon(md.get(k)) == canon(dd[k]) for k in dd)
+                      and all(canon(md.get(k, '#default')) == canon(dd[k]) for k in dd)
                       and md.get('#nokey') is None and md.get('#nokey', 5) == 5
                       and sorted(canon(x) for x in md.values()) == sorted(canon(x) for x in dd.values())
                       and sorted((k, canon(x)) for k, x in md.items()) == sorted((k, canon(x)) for k, x in dd.items()))
